@@ -461,8 +461,8 @@ PARTS = [
          oracle=oracle_lindep, n={"quick": 1500, "thorough": 15000}),
     Part("lindep_res", strategy=lambda: gen_linear.linear_problem(singular_only=True),
          oracle=oracle_lindep, n={"quick": 1500, "thorough": 15000}),
-    Part("planted", strategy=planted_case, oracle=oracle_planted, n={"quick": 600, "thorough": 8000},
+    Part("planted", strategy=planted_case, oracle=oracle_planted, n={"quick": 2000, "thorough": 8000},
          sample=lambda c: {"plants": c["plants"], "gkf": nm.gkf_text(c["net"])[:600]}),
-    Part("free", strategy=free_case, oracle=oracle_free, n={"quick": 600, "thorough": 8000},
+    Part("free", strategy=free_case, oracle=oracle_free, n={"quick": 2000, "thorough": 8000},
          sample=lambda c: {"mode": c["mode"], "gkf": nm.gkf_text(c["net"])[:600]}),
 ]
